@@ -40,6 +40,7 @@ type Engine struct {
 	prog         *ssa.Program
 	yq, cmd      *ssa.Package
 	yqPath       string
+	inInit       bool
 	cmdPath      string
 	replacements map[string]*ssa.Function
 	errorStringT types.Type
@@ -69,7 +70,7 @@ type methodKey struct {
 
 var defaultInterp = []string{
 	"io", "strconv", "container/list", "sort", "strings", "bytes", "bufio", "unicode/utf8", "slices", "maps", "cmp",
-	"github.com/elliotchance/orderedmap", "encoding/csv", "github.com/dimchansky/utfbom", "io/fs", "path", "math/bits", "math",
+	"github.com/elliotchance/orderedmap", "encoding/csv", "encoding/xml", "encoding", "github.com/dimchansky/utfbom", "io/fs", "path", "math/bits", "math",
 }
 
 var defaultBodyOK = []string{
@@ -250,6 +251,8 @@ func (e *Engine) runInit(withCmd bool) error {
 	in.maxSteps = 50_000_000
 	in.ps = &PathState{model: Model{}}
 	var err error
+	e.inInit = true
+	defer func() { e.inInit = false }()
 	func() {
 		defer func() {
 			if r := recover(); r != nil {
